@@ -2,6 +2,7 @@
    One definition per Go function, same order of side effects; follows the repaired code
    (fix commits D3 D4 D5 D7 D8 D9 D17, see known_findings.json). *)
 From DbftV Require Export Types.
+From DbftV Require Quorum.
 
 Section Node.
 Variable cfg : config.
@@ -937,3 +938,13 @@ Definition step (s : nstate) (e : event) (sc : list call) : res (nstate * list (
   | Mismatch p => Mismatch p | Panic => Panic | Fatal => Fatal | OutOfFuel => OutOfFuel
   end.
 End Node.
+
+(* the quorum expressions of the model are those of Quorum.v (C06) *)
+Lemma model_quorum_defs (s : nstate) (v : Z) :
+  F s = Quorum.F (N s) /\ Mq s = Quorum.M (N s) /\
+  (N s <> 0 -> forall m, GetPrimaryIndex s v m = Ok (Quorum.primary (BlockIndex s) v (N s), m)).
+Proof.
+  repeat split. intros Hn m. unfold GetPrimaryIndex, Quorum.primary, gorem.
+  destruct (N s =? 0) eqn:E; [apply Z.eqb_eq in E; contradiction|].
+  rewrite Z.geb_leb. reflexivity.
+Qed.
